@@ -26,7 +26,14 @@ RULE = ("model tie: Metadata._check_parts vs the extracted safe_comp on every ge
         "'a/b', '/abs', '..x', 'a/../../b'} ('/abs' = an absolute path inside the sandbox), chains of 1..12 '..' as separate elements "
         "and inside one element, elements of other types (int, non-UTF-8 bytes); v2 and hybrid `file tree` keys: each hostile element "
         "as a directory key, a leaf key below a directory and a top-level leaf key; `name`: each hostile element for v1 single/multi, v2 "
-        "single/multi and hybrid; batches through a metafile directory holding a hostile and a benign metafile.  A candidate file with "
+        "single/multi and hybrid; batches through a metafile directory holding a hostile and a benign metafile; hostile elements IN CONTEXT (several entries, "
+        "order matters): well-formed entries nested one, two and three directories deep ('sub/a', 'sub/deep/a', 'sub/deep/er/a'; also all "
+        "three, also with an unrelated entry after them) and a hostile entry -- last, first, between -- whose hostile element shares "
+        "their text at position 0, 1 or 2 of its path: '<word>/../..[/escaped]' with enough '..' to lead back to dest/name, one level "
+        "above the destination and far above it, the remaining chain inside one element ('sub/deep/../../../../escaped'), the chain "
+        "joined by separators, a trailing separator, an absolute element, '..' as separate elements after the complete shared chain; the "
+        "same as directory keys of v2 / hybrid trees written key by key (hostile key after / before the well-formed sibling); `name`: a "
+        "benign torrent 'sub' processed before / after a torrent named 'sub/../../escaped' (v1, v2, hybrid).  A candidate file with "
         "the right size and hash, named after the last element (or its base name), is present in the search directory so that the "
         "copy is attempted whenever the element list is let through.  Everything lives in a sandbox root whose destination is 12 "
         "levels deep, with victim files beside and above the destination; everything in the sandbox outside the destination is "
